@@ -360,3 +360,59 @@ func JunkEphemeralProofs(cs consensus.State, b types.Block, n int) (types.Block,
 	Seal(cs, &nb)
 	return nb, true
 }
+
+// ShareAll returns the block and supplement with every element replaced by its Share()d form (the memory-ownership
+// mark the library's Move/Share/Copy discipline puts on intentionally aliased elements). Contents are identical.
+func ShareAll(b types.Block, bs consensus.V1BlockSupplement) (types.Block, consensus.V1BlockSupplement) {
+	if b.V2 != nil {
+		v2 := *b.V2
+		v2.Transactions = append([]types.V2Transaction(nil), b.V2.Transactions...)
+		for ti := range v2.Transactions {
+			t := v2.Transactions[ti]
+			t.SiacoinInputs = append([]types.V2SiacoinInput(nil), t.SiacoinInputs...)
+			for i := range t.SiacoinInputs {
+				t.SiacoinInputs[i].Parent = t.SiacoinInputs[i].Parent.Share()
+			}
+			t.SiafundInputs = append([]types.V2SiafundInput(nil), t.SiafundInputs...)
+			for i := range t.SiafundInputs {
+				t.SiafundInputs[i].Parent = t.SiafundInputs[i].Parent.Share()
+			}
+			t.FileContractRevisions = append([]types.V2FileContractRevision(nil), t.FileContractRevisions...)
+			for i := range t.FileContractRevisions {
+				t.FileContractRevisions[i].Parent = t.FileContractRevisions[i].Parent.Share()
+			}
+			t.FileContractResolutions = append([]types.V2FileContractResolution(nil), t.FileContractResolutions...)
+			for i := range t.FileContractResolutions {
+				t.FileContractResolutions[i].Parent = t.FileContractResolutions[i].Parent.Share()
+				if sp, ok := t.FileContractResolutions[i].Resolution.(*types.V2StorageProof); ok {
+					cp := *sp
+					cp.ProofIndex = sp.ProofIndex.Share()
+					t.FileContractResolutions[i].Resolution = &cp
+				}
+			}
+			v2.Transactions[ti] = t
+		}
+		b.V2 = &v2
+	}
+	nbs := consensus.V1BlockSupplement{Transactions: make([]consensus.V1TransactionSupplement, len(bs.Transactions))}
+	for i, ts := range bs.Transactions {
+		var n consensus.V1TransactionSupplement
+		for _, e := range ts.SiacoinInputs {
+			n.SiacoinInputs = append(n.SiacoinInputs, e.Share())
+		}
+		for _, e := range ts.SiafundInputs {
+			n.SiafundInputs = append(n.SiafundInputs, e.Share())
+		}
+		for _, e := range ts.RevisedFileContracts {
+			n.RevisedFileContracts = append(n.RevisedFileContracts, e.Share())
+		}
+		for _, sp := range ts.StorageProofs {
+			n.StorageProofs = append(n.StorageProofs, consensus.V1StorageProofSupplement{FileContract: sp.FileContract.Share(), WindowID: sp.WindowID})
+		}
+		nbs.Transactions[i] = n
+	}
+	for _, e := range bs.ExpiringFileContracts {
+		nbs.ExpiringFileContracts = append(nbs.ExpiringFileContracts, e.Share())
+	}
+	return b, nbs
+}
